@@ -77,7 +77,10 @@ class C17(framework.PropertyCheck):
             steps.append(('eval', 'eorg', r.choice(['(step t0 1)', '(step tB 1)', '(step t0 2)', '(step 1)', '(step t0 -1)', '(step tB -1)'])))
             form = r.choice(['(reval t0^top.cnt 1)', '(reval t0^top.cnt 2)', '(reval t0^top.cnt 4)', '(reval (list t0^top.cnt tB^top.cnt) 1)',
                              '(reval (reval t0^top.cnt 2) 1)', '(reval t0^top.cnt -1)', '(reval (reval tB^top.cnt 3) 1)', '(rising t0^top.clk)',
-                             '(find/g (= t0^top.clk 1))', '(whenever (= t0^top.clk 1) 1)'])
+                             '(find/g (= t0^top.clk 1))', '(whenever (= t0^top.clk 1) 1)',
+                             # a scan that walks the traces one after the other puts each of them back
+                             '(find (= t0^top.clk 1))', '(count (= tB^top.clk 1))', '(length (find (= t0^top.cnt tB^top.cnt)))',
+                             '(let ([z 1]) (find (= t0^top.clk z)))', '(reval (count (= t0^top.clk 1)) 1)'])
             marks.append(('pos2', len(steps), form))
             steps.append(('eval', 'eorg', idx))
             steps.append(('eval', 'eorg', form))
